@@ -417,17 +417,17 @@ theorem commit_extends {s : St} {root : Hash} {failAt : Option Nat} {fuel : Nat}
       simp only at hc
       split at hc <;> (simp at hc; subst hc; simp only; rw [applyBatches_eq]; exact (writes_extends _ _ hcs).1)
 
-/-- After all Puts of a commit, everything a reader could see below a written
-    (or already stored) hash through cache-then-disk is seen identically from the disk alone. -/
-theorem commit_view {s : St} {root : Hash} {fuel : Nat} {ws : List Hash} (hi : Inv s)
+/-- The step fact behind completeness: after all Puts of a commit, a hash that was
+    written or was on disk already is answered by the disk alone exactly as the
+    live database (cache, then disk) answered before, and everything it needs is
+    again written or on disk. -/
+theorem commit_step {s : St} {root : Hash} {fuel : Nat} {ws : List Hash} (hi : Inv s)
     (hw : walk s.cache fuel root = some ws) :
-    ∀ (f : Nat) (h : Hash) (v : Nat × Nat), (h ∈ ws ∨ Has s.disk h) →
-      view (liveLookup s) f h = some v →
-      view (diskGet (applyWrites s.cache s.disk ws)) f h = some v := by
+    ∀ h, (h ∈ ws ∨ Has s.disk h) → ∀ n, liveLookup s h = some n →
+      diskGet (applyWrites s.cache s.disk ws) h = some n ∧ ∀ r ∈ n.need, (r ∈ ws ∨ Has s.disk r) := by
   have g := walk_good s.cache s.disk hi.cacheInv fuel root ws hw
   have hext := (writes_extends ws s.disk hi.consistent).1
   have hcl := allRes_closed hi.allRes
-  apply view_transfer (liveLookup s) (diskGet (applyWrites s.cache s.disk ws)) (fun h => h ∈ ws ∨ Has s.disk h)
   intro h hg n hn
   unfold liveLookup at hn
   cases hc : s.cache.lookup h with
@@ -448,6 +448,16 @@ theorem commit_view {s : St} {root : Hash} {fuel : Nat} {ws : List Hash} (hi : I
   | none =>
     simp only [hc] at hn
     exact ⟨hext h n hn, fun r hr => Or.inr (hcl h n hn r hr)⟩
+
+/-- After all Puts of a commit, everything a reader could see below a written
+    (or already stored) hash through cache-then-disk is seen identically from the disk alone. -/
+theorem commit_view {s : St} {root : Hash} {fuel : Nat} {ws : List Hash} (hi : Inv s)
+    (hw : walk s.cache fuel root = some ws) :
+    ∀ (f : Nat) (h : Hash) (v : Nat × Nat), (h ∈ ws ∨ Has s.disk h) →
+      view (liveLookup s) f h = some v →
+      view (diskGet (applyWrites s.cache s.disk ws)) f h = some v :=
+  view_transfer (liveLookup s) (diskGet (applyWrites s.cache s.disk ws)) (fun h => h ∈ ws ∨ Has s.disk h)
+    (commit_step hi hw)
 
 /-- shape of every `commit` result: a prefix of the Put sequence reached the disk;
     the cache is either untouched, or (all Puts written) `uncache`d. -/
